@@ -126,6 +126,21 @@ CHECKS["C04"] = dict(
     technique="TLA+ contract validated by TLC on recorded AST walks of TLA+-generated sources",
     design="7/C04")
 
+CHECKS["C06"] = dict(
+    category="model_checking",
+    text="Proto.tla specifies the lexer/parser hand-off with one action per synchronisation point of the code.  (1) TLC explores all "
+         "interleavings for all abstract scripts up to a bound (ProtoModel: tokens that are plain, lexer errors, look-ahead errors, "
+         "parser errors, action errors, here-document announcements / reads, read faults, nested substitutions) and checks result "
+         "determinism, quiescence at return, stability after return, no undecided select, pops never waiting, read errors kept, "
+         "no stuck state, termination under fairness; weakened protocol variants must violate them.  (2) The gated scheduler of the "
+         "harness forces schedules on the real code (extremes, decision bit-vectors, with read faults); every recorded trace is "
+         "validated against Proto.tla (every event an enabled action, every invariant in every state) and SchedCheck.tla checks "
+         "identical results over all schedules and quiescence at return.  (3) Free runs under the race detector, GOMAXPROCS 1/2/16.",
+    note="Trusted: the verif hooks sit at every synchronisation point (add-only); between hooks goroutines run undisturbed; the choice "
+         "a Go select makes between two ready branches cannot be forced, only repeated; TLC.",
+    technique="explicit TLA+ protocol model checked by TLC; trace validation of recorded executions; schedule forcing through gated hooks",
+    design="7/C06")
+
 NOT_APPLICABLE = {}
 
 ALL = ["C%02d" % i for i in range(1, 21)]
